@@ -53,6 +53,7 @@ class SymH:
         self.observed = []    # (name, flat values)
         self.inputs = []      # names in creation order (real vars)
         self.notes = []
+        self.undo = []
 
     # ---- inputs
     def var(self, name):
@@ -169,6 +170,10 @@ class SymH:
     def note(self, txt):
         self.notes.append(txt)
 
+    def stub(self, which, **opts):
+        from . import stubs
+        self.undo.append(stubs.install(self, which, **opts))
+
     # helpers usable in both modes
     @staticmethod
     def dot(a, b):
@@ -196,6 +201,7 @@ class ConcH:
         self.observed = []
         self.notes = []
         self.missing = []
+        self.undo = []
 
     def var(self, name):
         if name not in self.env:
@@ -291,17 +297,32 @@ class ConcH:
 
     dot = staticmethod(SymH.dot)
 
+    def stub(self, which, **opts):
+        from . import stubs
+        self.undo.append(stubs.install(self, which, **opts))
+
     def is_sym(self):
         return False
 
 
-def run_concrete(fn, params, env, opts=None):
-    """run the harness on the real library with float inputs. returns dict(status, goals, observed, exc)"""
+def run_concrete(fn, params, env, opts=None, with_stubs=False):
+    """run the harness on the real library with float inputs. returns dict(status, goals, observed, exc).
+    with_stubs=True: LAPACK stubs return the witness's concrete choice (translator validation);
+    with_stubs=False: the real LAPACK is used (counterexample replay)."""
+    from . import stubs
     h = ConcH(env, opts or {})
+    saved = dict(stubs.CUR)
+    stubs.reset()
+    stubs.CUR['concrete_stub'] = with_stubs
     try:
-        with np.errstate(all='ignore'), npmodels.unpatched(), warnings.catch_warnings():
-            warnings.simplefilter('ignore')
-            fn(h, **params)
+        try:
+            with np.errstate(all='ignore'), npmodels.unpatched(), warnings.catch_warnings():
+                warnings.simplefilter('ignore')
+                fn(h, **params)
+        finally:
+            for u in h.undo:
+                u()
+            stubs.CUR.update(saved)
         return dict(status='done', goals=h.goals, observed=h.observed, missing=h.missing)
     except AssumptionFailed as e:
         return dict(status='assumption-failed', tag=str(e), goals=h.goals, observed=h.observed, missing=h.missing)
@@ -355,60 +376,43 @@ def pc_holds(cx, env, margin=1e-9):
 
 
 def find_witness(cx, extra=None, timeout_ms=5000, tries=6):
-    """a float-representable assignment satisfying the path condition with margin (or None)"""
+    """a float-representable assignment satisfying the path condition with margin (or None).  Preference order:
+    generic and well-conditioned (all inputs non-zero and distinct, every 'expr != 0' condition kept away from 0),
+    then well-conditioned only, then anything."""
     s = cx.solver(timeout_ms)
     if extra is not None:
         s.add(extra)
-    last = None
-    # first ask for a generic point (all inputs non-zero, pairwise distinct): a more telling witness
     vs = [cx.z3v[slot] for slot in cx.var_alias.values()]
-    if vs:
+    nzs = [cx.p2z(b.args[0].v.numer) for b in cx.pc if b.op == 'cmp' and b.args[1] == '!=']
+    generic = [v != 0 for v in vs] + [a != b for a, b in itertools.combinations(vs, 2)] + [z3.And(v != 1, v != -1) for v in vs]
+    generic += [z3.And(v < 8, v > -8) for v in vs]
+
+    def cond(m):
+        return [z3.Or(nz > z3.RealVal(m), nz < -z3.RealVal(m)) for nz in nzs]
+    attempts = [generic + cond("1/4"), cond("1/4"), generic + cond("1/64"), cond("1/1024"), generic, []]
+    any_sat = False
+    last_status = 'unknown'
+    for extra_cs in attempts:
         s.push()
-        s.add(*[v != 0 for v in vs])
-        s.add(*[a != b for a, b in itertools.combinations(vs, 2)])
-        s.add(*[z3.And(v != 1, v != -1) for v in vs])
-        if str(s.check()) == 'sat':
-            env, exact = model_env(cx, s.model())
-            fenv = snap_env(env)
-            if pc_holds(cx, fenv):
-                s.pop()
-                return fenv, 'sat'
-        s.pop()
-    for k in range(tries):
+        s.add(*extra_cs)
         t = time.time()
-        r = str(s.check())
+        r = core.zcheck(s, timeout_ms)
         cx.nsolver += 1
         cx.tsolver += time.time() - t
-        if r != 'sat':
-            return None, r if last is None else 'sat-unrepresentable'
-        m = s.model()
-        env, exact = model_env(cx, m)
-        fenv = snap_env(env)
-        ok = pc_holds(cx, fenv)
-        if ok:
-            return fenv, 'sat'
-        last = env
-        # block a box around this point for one variable at a time to move away from boundaries
-        blk = []
-        for name, slot in cx.var_alias.items():
-            blk.append(cx.z3v[slot] != z3.RealVal(env[name]))
-        if not blk:
-            break
-        s.add(z3.Or(*blk))
-        # prefer "round" values: nudge by asking for a nearby perturbed model
-        if k >= 1:
-            for name, slot in list(cx.var_alias.items())[:k]:
-                q = Fraction(round(float(env[name]) * 8), 8) + Fraction(k, 64)
-                s.push()
-                s.add(cx.z3v[slot] == z3.RealVal(q))
-                if str(s.check()) == 'sat':
-                    m2 = s.model()
-                    env2, _ = model_env(cx, m2)
-                    fenv2 = snap_env(env2)
-                    if pc_holds(cx, fenv2):
-                        s.pop()
-                        return fenv2, 'sat'
+        if r == 'sat':
+            any_sat = True
+            env, exact = model_env(cx, s.model())
+            fenv = snap_env(env)
+            if pc_holds(cx, fenv, margin=1e-7):
                 s.pop()
+                return fenv, 'sat'
+        elif r == 'unsat' and not extra_cs:
+            s.pop()
+            return None, 'unsat'
+        last_status = r
+        s.pop()
+    if not any_sat:
+        return None, last_status
     return None, 'sat-unrepresentable'
 
 
@@ -450,7 +454,7 @@ def discharge_path(res, fn, params, opts, stats):
     rec = dict(trace=list(cx.trace), status=res.status, goals=[], n_branch=len(cx.trace))
     stats['paths'] += 1
     # ---- reachability witness
-    wit, wstat = find_witness(cx, timeout_ms=opts.get('witness_timeout_ms', 8000))
+    wit, wstat = find_witness(cx, timeout_ms=opts.get('witness_timeout_ms', 3000))
     rec['witness'] = {k: str(v) for k, v in wit.items()} if wit else None
     rec['witness_status'] = wstat
     if wstat == 'unsat':
@@ -460,7 +464,7 @@ def discharge_path(res, fn, params, opts, stats):
         return
     conc = None
     if wit is not None:
-        conc = run_concrete(fn, params, {k: float(v) for k, v in wit.items()}, opts)
+        conc = run_concrete(fn, params, {k: float(v) for k, v in wit.items()}, opts, with_stubs=True)
         rec['concrete_status'] = conc['status']
 
     if res.status == 'inconclusive':
@@ -470,6 +474,8 @@ def discharge_path(res, fn, params, opts, stats):
     if res.status == 'exception':
         e = res.exc
         rec['exception'] = f"{type(e).__name__}: {e}"
+        if wit is not None and cx.stub_calls:
+            conc = run_concrete(fn, params, {k: float(v) for k, v in wit.items()}, opts, with_stubs=False)
         if conc is not None and conc['status'] == 'exception' and conc['exc_type'] == type(e).__name__:
             stats['violations'].append(dict(goal='no-unexpected-exception', kind='exception', exc=conc['exc'],
                                             env={k: float(v) for k, v in wit.items()}, trace=list(cx.trace), tb=conc.get('tb')))
@@ -491,9 +497,15 @@ def discharge_path(res, fn, params, opts, stats):
             else:
                 stats['paths_not_validated'] += 1
         elif conc['status'] == 'exception':
-            # symbolic run completed but the real code raises on the witness
-            stats['translation_mismatch'].append(dict(trace=list(cx.trace), detail="concrete run raised " + conc['exc'], tb=conc.get('tb'),
-                                                      env={k: float(v) for k, v in wit.items()}))
+            # the symbolic run completed but the real code raises on the witness: replay with the real LAPACK; an exception of
+            # the real code on an input satisfying the precondition is a violation of "returns a value"
+            conc2 = run_concrete(fn, params, {k: float(v) for k, v in wit.items()}, opts, with_stubs=False) if cx.stub_calls else conc
+            if conc2['status'] == 'exception':
+                stats['violations'].append(dict(goal='no-unexpected-exception', kind='exception', exc=conc2['exc'],
+                                                env={k: float(v) for k, v in wit.items()}, trace=list(cx.trace), tb=conc2.get('tb')))
+            else:
+                stats['translation_mismatch'].append(dict(trace=list(cx.trace), detail="concrete run with stubs raised " + conc['exc'], tb=conc.get('tb'),
+                                                          env={k: float(v) for k, v in wit.items()}))
         else:
             stats['paths_not_validated'] += 1
     else:
@@ -555,7 +567,7 @@ def solve_goal(cx, negated_goal, timeout_ms, stats):
     s = cx.solver(timeout_ms)
     s.add(negated_goal)
     t = time.time()
-    r = str(s.check())
+    r = core.zcheck(s, timeout_ms)
     dt = time.time() - t
     cx.nsolver += 1
     cx.tsolver += dt
@@ -584,7 +596,7 @@ def confirm_cex(cx, fn, params, opts, name, cex, g, stats):
             if not blk:
                 break
             s.add(z3.Or(*blk))
-            if str(s.check()) != 'sat':
+            if core.zcheck(s, 5000) != 'sat':
                 break
             env, _ = model_env(cx, s.model())
             envs.append(env)
@@ -687,8 +699,14 @@ def run_instance(fn, params, opts=None):
     mon = _Monitor(funcs)
 
     def body(cx):
+        from . import stubs
         h = SymH(cx, opts)
-        fn(h, **params)
+        stubs.reset()
+        try:
+            fn(h, **params)
+        finally:
+            for u in h.undo:
+                u()
         return h
 
     def on_path(res):
